@@ -228,6 +228,7 @@ pub fn run(rep: &mut Report) {
     rep.alpha("SingleObjective::try_from on a grid of 38 special doubles (zeros, subnormals, extremes, infinities, 4 NaN encodings, ordinary values)");
     rep.alpha("==, <, <=, >, >=, partial_cmp, cmp, min, max on every pair; transitivity, sort/min/max/min_by_key on every triple");
     rep.alpha("+, -, neg on every pair; * and / by every finite grid double");
+    rep.alpha("MultiObjective vectors of 7..33 objectives: one illegal value at every position; equal / one better / one worse / trade-off pairs at every position");
     rep.alpha("MultiObjective over all vectors of length 0..3 over {-1,-0,+0,1,+inf}: try_from, partial_cmp, ==, !=, <, <=, >, >= on all pairs, transitivity on all triples");
     rep.assume("doubles outside the grid behave like their class representative (the code does not branch on magnitudes)");
 
@@ -390,6 +391,31 @@ pub fn run(rep: &mut Report) {
             }
         }
     }
+    // long vectors (a block-wise or chunked implementation shows from 8 objectives on): one illegal value
+    // at every position of an otherwise legal vector, and the legal vector itself
+    for len in [4usize, 7, 8, 9, 15, 16, 17, 33] {
+        for pos in 0..=len {
+            for ill in [f64::NAN, -f64::NAN, f64::NEG_INFINITY] {
+                let mut v: Vec<f64> = (0..len).map(|i| (i % 3) as f64 - 0.5).collect();
+                if pos < len {
+                    v[pos] = ill;
+                } else if !ill.is_infinite() {
+                    continue;
+                }
+                cnt += 1;
+                let exp = v.iter().all(|x| legal(*x));
+                let r1 = MultiObjective::try_from(v.clone());
+                let r2 = MultiObjective::try_from(&v[..]);
+                if r1.is_ok() != exp || r2.is_ok() != exp {
+                    p.violate(
+                        format!("C09 multi construct len={} expected_ok={}", len, exp),
+                        format!("try_from({:?}): vec form ok={}, slice form ok={}", v, r1.is_ok(), r2.is_ok()),
+                        json!({"kind":"mconstruct","v": v.iter().map(|x| format!("{:016x}", x.to_bits())).collect::<Vec<_>>()}),
+                    );
+                }
+            }
+        }
+    }
     p.transitions = cnt * 2;
     p.traces = cnt;
     p.states = cnt;
@@ -408,8 +434,42 @@ pub fn run(rep: &mut Report) {
             }
         }
     }
-    p.states = (mg.len() * mg.len()) as u64;
-    p.bound("vectors", mg.len() as u64);
+    // long vectors: equal, one better position, one worse position, one better and one worse position
+    // (trade-off), at every position / pair of positions
+    let mut long = 0u64;
+    for len in [7usize, 8, 9, 12, 16, 17] {
+        let base: Vec<f64> = (0..len).map(|i| 1.0 + (i % 4) as f64).collect();
+        let mut variants: Vec<Vec<f64>> = vec![base.clone()];
+        for i in 0..len {
+            let mut v = base.clone();
+            v[i] -= 0.5;
+            variants.push(v.clone());
+            let mut w = base.clone();
+            w[i] += 0.5;
+            variants.push(w);
+            for j in 0..len {
+                if j != i && (j + i) % 3 == 0 {
+                    let mut t = v.clone();
+                    t[j] += 0.25;
+                    variants.push(t);
+                }
+            }
+        }
+        for a in &variants {
+            for b in [&base, &variants[1], &variants[variants.len() - 1]] {
+                for (x, y) in [(a, b), (b, a)] {
+                    p.transitions += 1;
+                    p.traces += 1;
+                    long += 1;
+                    if let Some((sg, d)) = check_mo_pair(x, y) {
+                        p.violate(sg, d, json!({"kind":"mpair","a":x.iter().map(|v| format!("{:016x}", v.to_bits())).collect::<Vec<_>>(),"b":y.iter().map(|v| format!("{:016x}", v.to_bits())).collect::<Vec<_>>()}));
+                    }
+                }
+            }
+        }
+    }
+    p.states = (mg.len() * mg.len()) as u64 + long;
+    p.bound("vectors", mg.len() as u64).bound("long_vector_pairs", long);
     p.sample(json!({"pair": [[0.0, 1.0], [1.0, 0.0]], "expected": "None (trade-off)"}));
     p.require_outcomes(4);
     rep.push(p);
